@@ -1,5 +1,605 @@
-//! Conformance harness for property C05, see /verif/DESIGN.md.
+//! Conformance harness for property C05 (pathname expansion), see
+//! /verif/DESIGN.md section 6 "C05" and spec/Glob.tla.
+//!
+//! `replay`  spec -> impl: reads the lines TLC printed from spec/MC_Glob.tla
+//!           (header with unit alphabet and trees; one line per word with the
+//!           allowed results in every tree), materialises every tree in the
+//!           simulated file system (and a selection of them on the real file
+//!           system, inside a chroot so that absolute pathnames mean the same),
+//!           runs `probe <n> <word>` for every word through the real shell and
+//!           compares the probe's arguments with the allowed lists.
+//! `random`  impl -> spec: seeded random trees and words well beyond the
+//!           enumeration bounds; records {tree, cwd, word, noglob, observed}
+//!           for validation by spec/Trace_Glob.tla.
+//! `redo`    re-executes recorded cases (replay files, anti-vacuity tests).
+use rand::rngs::StdRng;
+use rand::{Rng, SeedableRng};
+use serde_json::{Value, json};
+use std::collections::HashMap;
+use std::io::{BufRead, Write};
+use yvcommon::real::{RealCfg, run_real};
+use yvcommon::sched::Outcome;
+use yvcommon::shell::{FileSpec, ShellCfg, run_shell};
+use yvcommon::util::{catch, open_in, open_out, opt, opt_usize};
+
+#[derive(Clone, Debug)]
+struct Unit {
+    k: String,
+    s: String,
+}
+
+#[derive(Clone, Debug)]
+struct Node {
+    p: String,
+    k: String,
+    to: String,
+}
+
+#[derive(Clone, Debug)]
+struct Tree {
+    cwd: String,
+    nodes: Vec<Node>,
+}
+
+impl Tree {
+    fn has_links(&self) -> bool {
+        self.nodes.iter().any(|n| n.k == "l")
+    }
+    fn files(&self) -> Vec<FileSpec> {
+        let mut nodes = self.nodes.clone();
+        nodes.sort_by_key(|n| n.p.matches('/').count());
+        nodes
+            .iter()
+            .map(|n| match n.k.as_str() {
+                "d" => FileSpec::Dir { path: n.p.clone() },
+                "l" => FileSpec::Symlink { path: n.p.clone(), target: n.to.clone() },
+                _ => FileSpec::Regular { path: n.p.clone(), content: vec![], mode: 0o644 },
+            })
+            .collect()
+    }
+    fn to_json(&self) -> Value {
+        json!({
+            "cwd": self.cwd,
+            "nodes": self.nodes.iter().map(|n| json!({"p": n.p, "k": n.k, "to": n.to})).collect::<Vec<_>>(),
+        })
+    }
+    fn from_json(v: &Value) -> Tree {
+        Tree {
+            cwd: v["cwd"].as_str().unwrap().to_string(),
+            nodes: v["nodes"]
+                .as_array()
+                .unwrap()
+                .iter()
+                .map(|n| Node {
+                    p: n["p"].as_str().unwrap().to_string(),
+                    k: n["k"].as_str().unwrap().to_string(),
+                    to: n["to"].as_str().unwrap().to_string(),
+                })
+                .collect(),
+        }
+    }
+}
+
+fn units_from_json(v: &Value) -> Vec<Unit> {
+    v.as_array()
+        .unwrap()
+        .iter()
+        .map(|u| Unit { k: u["k"].as_str().unwrap().to_string(), s: u["s"].as_str().unwrap().to_string() })
+        .collect()
+}
+
+fn units_to_json(us: &[Unit]) -> Value {
+    json!(us.iter().map(|u| json!({"k": u.k, "s": u.s})).collect::<Vec<_>>())
+}
+
+/// Shell text of one word: (assignments to run before, the word).
+fn render(us: &[Unit]) -> (String, String) {
+    let mut pre = String::new();
+    let mut word = String::new();
+    let mut nv = 0;
+    for u in us {
+        match u.k.as_str() {
+            "lit" => word.push_str(&u.s),
+            "bs" => {
+                word.push('\\');
+                word.push_str(&u.s);
+            }
+            "sq" => {
+                word.push('\'');
+                word.push_str(&u.s);
+                word.push('\'');
+            }
+            "dq" => {
+                word.push('"');
+                word.push_str(&u.s);
+                word.push('"');
+            }
+            "var" | "dqvar" => {
+                nv += 1;
+                pre.push_str(&format!("v{nv}='{}'; ", u.s));
+                if u.k == "var" {
+                    word.push_str(&format!("${{v{nv}}}"));
+                } else {
+                    word.push_str(&format!("\"${{v{nv}}}\""));
+                }
+            }
+            "tilde" => {
+                pre.push_str(&format!("HOME='{}'; ", u.s));
+                word.push('~');
+            }
+            other => panic!("unknown unit kind {other}"),
+        }
+    }
+    (pre, word)
+}
+
+fn script_line(idx: usize, us: &[Unit]) -> String {
+    let (pre, word) = render(us);
+    format!("{pre}probe {idx} {word}\n")
+}
+
+#[derive(Clone, Copy, PartialEq, Eq, Debug)]
+enum Mode {
+    Sim,
+    Real,
+}
+
+impl Mode {
+    fn name(self) -> &'static str {
+        match self {
+            Mode::Sim => "sim",
+            Mode::Real => "real",
+        }
+    }
+}
+
+struct RunOut {
+    outcome: String,
+    got: HashMap<usize, Vec<String>>,
+}
+
+fn collect_probes(events: &[Value], got: &mut HashMap<usize, Vec<String>>) {
+    for e in events {
+        if e["ev"] != "probe" {
+            continue;
+        }
+        let args: Vec<String> =
+            e["args"].as_array().map(|a| a.iter().map(|x| x.as_str().unwrap_or("").to_string()).collect()).unwrap_or_default();
+        if let Some(idx) = args.first().and_then(|s| s.parse::<usize>().ok()) {
+            got.insert(idx, args[1..].to_vec());
+        }
+    }
+}
+
+/// Runs `probe <idx> <word>` for every (idx, word) in one shell over `tree`.
+fn run_batch(tree: &Tree, words: &[(usize, &[Unit])], noglob: bool, mode: Mode) -> RunOut {
+    let mut script = String::new();
+    if noglob {
+        script.push_str("set -f\n");
+    }
+    for (idx, us) in words {
+        script.push_str(&script_line(*idx, us));
+    }
+    let mut got = HashMap::new();
+    match mode {
+        Mode::Sim => {
+            let mut cfg = ShellCfg::command(&script);
+            cfg.files = tree.files();
+            cfg.cwd = Some(tree.cwd.clone());
+            cfg.step_limit = 200_000_000;
+            match catch(move || run_shell(cfg)) {
+                Ok(r) => {
+                    collect_probes(&r.events, &mut got);
+                    let outcome = match &r.outcome {
+                        Outcome::Completed => "completed".to_string(),
+                        _ => r.outcome_str(),
+                    };
+                    RunOut { outcome, got }
+                }
+                Err(msg) => RunOut { outcome: format!("panic: {msg}"), got },
+            }
+        }
+        Mode::Real => {
+            // the script goes through standard input (a file): no limit on its length
+            let mut cfg = RealCfg::command("", true);
+            cfg.args = vec![];
+            cfg.stdin = script.clone().into_bytes();
+            cfg.files = tree.files();
+            cfg.timeout = std::time::Duration::from_secs(120);
+            cfg.env = vec![
+                ("YV_C05_CHROOT".to_string(), tree.cwd.clone()),
+                ("YV_EVENTS".to_string(), "/.yv-events".to_string()),
+            ];
+            let r = run_real(&cfg);
+            let mut events: Vec<Value> = r.events.clone();
+            for (name, content) in &r.files {
+                if name == ".yv-events" {
+                    for l in String::from_utf8_lossy(content).lines() {
+                        if let Ok(v) = serde_json::from_str(l) {
+                            events.push(v);
+                        }
+                    }
+                }
+            }
+            collect_probes(&events, &mut got);
+            let outcome = if r.timed_out {
+                "timeout".to_string()
+            } else if r.status != 0 {
+                format!("status {}: {}", r.status, String::from_utf8_lossy(&r.stderr).chars().take(300).collect::<String>())
+            } else {
+                "completed".to_string()
+            };
+            RunOut { outcome, got }
+        }
+    }
+}
+
+// ---------------------------------------------------------------------------
+// replay (spec -> impl)
+// ---------------------------------------------------------------------------
+struct Case {
+    f: Vec<usize>,
+    un: bool,
+    ng: String,
+    /// per tree: None = outside the modelled part of the file system
+    r: Vec<Option<Vec<Vec<String>>>>,
+}
+
+fn replay(args: &[String]) {
+    let mut alphabet: Vec<Unit> = vec![];
+    let mut trees: Vec<Tree> = vec![];
+    let mut cases: Vec<Case> = vec![];
+    for line in open_in(args).lines() {
+        let line = line.expect("read");
+        if line.trim().is_empty() {
+            continue;
+        }
+        let v: Value = serde_json::from_str(&line).expect("json line from TLC");
+        if v.get("hdr").is_some() {
+            alphabet = units_from_json(&v["alphabet"]);
+            trees = v["trees"].as_array().unwrap().iter().map(Tree::from_json).collect();
+            continue;
+        }
+        let strs = |x: &Value| -> Vec<String> { x.as_array().unwrap().iter().map(|s| s.as_str().unwrap().to_string()).collect() };
+        cases.push(Case {
+            f: v["f"].as_array().unwrap().iter().map(|x| x.as_u64().unwrap() as usize).collect(),
+            un: v["un"].as_bool().unwrap(),
+            ng: v["ng"].as_str().unwrap().to_string(),
+            r: v["r"]
+                .as_array()
+                .unwrap()
+                .iter()
+                .map(|t| if t["o"].as_bool().unwrap() { None } else { Some(t["a"].as_array().unwrap().iter().map(strs).collect()) })
+                .collect(),
+        });
+    }
+    if trees.is_empty() || alphabet.is_empty() {
+        eprintln!("yv-c05 replay: no header line");
+        std::process::exit(2);
+    }
+    let real_first = opt_usize(args, "--real-first", 0);
+    let real_stride = opt_usize(args, "--real-stride", 0);
+    let noglob_trees = opt_usize(args, "--noglob-trees", 2);
+    let words: Vec<Vec<Unit>> = cases.iter().map(|c| c.f.iter().map(|i| alphabet[*i - 1].clone()).collect()).collect();
+    let mut out = open_out(args);
+
+    let mut n_sim = 0usize;
+    let mut n_real = 0usize;
+    let mut n_noglob = 0usize;
+    let mut n_outside = 0usize;
+    let mut n_nontrivial = 0usize;
+    let mut n_choice = 0usize;
+    let mut n_mismatch = 0usize;
+    let mut n_sim_only = 0usize;
+    let mut real_trees = 0usize;
+    let mut samples: Vec<Value> = vec![];
+    let n_un = cases.iter().filter(|c| c.un).count();
+
+    for (ti, tree) in trees.iter().enumerate() {
+        // the words judged in this tree
+        let sel: Vec<(usize, &[Unit])> =
+            cases.iter().enumerate().filter(|(_, c)| !c.un && c.r[ti].is_some()).map(|(i, _)| (i, words[i].as_slice())).collect();
+        n_outside += cases.iter().filter(|c| !c.un && c.r[ti].is_none()).count();
+        let on_real = tree.has_links() || ti < real_first || (real_stride > 0 && ti % real_stride == 0);
+        let sim = run_batch(tree, &sel, false, Mode::Sim);
+        let conforms = |r: &RunOut, i: &usize| {
+            let allowed = cases[*i].r[ti].as_ref().unwrap();
+            r.got.get(i).map(|g| allowed.iter().any(|a| a == g)).unwrap_or(false)
+        };
+        let real = if on_real {
+            real_trees += 1;
+            Some(run_batch(tree, &sel, false, Mode::Real))
+        } else {
+            // words on which the simulated run deviates are also run on the
+            // real file system, so that every deviation can be classified
+            let bad: Vec<(usize, &[Unit])> = sel.iter().filter(|(i, _)| !conforms(&sim, i)).cloned().collect();
+            if bad.is_empty() { None } else { Some(run_batch(tree, &bad, false, Mode::Real)) }
+        };
+        for (i, us) in &sel {
+            let allowed = cases[*i].r[ti].as_ref().unwrap();
+            let trivial = allowed.len() == 1 && allowed[0].len() == 1 && allowed[0][0] == cases[*i].ng;
+            if !trivial {
+                n_nontrivial += 1;
+            }
+            if allowed.len() > 1 {
+                n_choice += 1;
+            }
+            let ok = |r: &RunOut| conforms(r, i);
+            // a real run on demand only holds the deviating words
+            let real_ok = real.as_ref().filter(|r| on_real || r.got.contains_key(i) || !ok(&sim)).map(&ok);
+            n_sim += 1;
+            if real_ok.is_some() {
+                n_real += 1;
+            }
+            let mut report = |mode: Mode, r: &RunOut, real_state: &str| {
+                let (pre, word) = render(us);
+                let rec = json!({
+                    "mode": mode.name(), "tree": tree.to_json(), "links": tree.has_links(), "real": real_state,
+                    "units": units_to_json(us), "text": format!("{pre}probe {word}"), "field": cases[*i].ng, "noglob": false,
+                    "allowed": allowed, "observed": r.got.get(i), "missing": !r.got.contains_key(i), "outcome": r.outcome,
+                });
+                writeln!(out, "{rec}").unwrap();
+            };
+            let real_state = match real_ok {
+                None => "notrun",
+                Some(true) => "conforms",
+                Some(false) => "differs",
+            };
+            if !ok(&sim) {
+                n_mismatch += 1;
+                if real_ok == Some(true) {
+                    n_sim_only += 1;
+                }
+                report(Mode::Sim, &sim, real_state);
+            }
+            if let (Some(r), Some(false)) = (&real, real_ok) {
+                n_mismatch += 1;
+                report(Mode::Real, r, real_state);
+            }
+            if samples.len() < 6 && !trivial && (*i % 97 == 3 || allowed.len() > 1 && samples.len() < 2) {
+                let (pre, word) = render(us);
+                samples.push(json!({"tree": ti + 1, "cwd": tree.cwd, "word": format!("{pre}probe {word}"), "allowed": allowed,
+                    "observed_sim": sim.got.get(i), "observed_real": real.as_ref().and_then(|r| r.got.get(i))}));
+            }
+        }
+        // noglob: the word itself, whatever the tree
+        if ti < noglob_trees {
+            let all: Vec<(usize, &[Unit])> = cases.iter().enumerate().filter(|(_, c)| !c.un).map(|(i, _)| (i, words[i].as_slice())).collect();
+            let mut runs = vec![(Mode::Sim, run_batch(tree, &all, true, Mode::Sim))];
+            if on_real {
+                runs.push((Mode::Real, run_batch(tree, &all, true, Mode::Real)));
+            }
+            for (mode, r) in &runs {
+                for (i, us) in &all {
+                    n_noglob += 1;
+                    let want = vec![cases[*i].ng.clone()];
+                    if r.got.get(i) != Some(&want) {
+                        n_mismatch += 1;
+                        let (pre, word) = render(us);
+                        let rec = json!({
+                            "mode": mode.name(), "tree": tree.to_json(), "links": tree.has_links(), "real": "notrun",
+                            "units": units_to_json(us), "text": format!("set -f; {pre}probe {word}"), "field": cases[*i].ng, "noglob": true,
+                            "allowed": [want], "observed": r.got.get(i), "missing": !r.got.contains_key(i), "outcome": r.outcome,
+                        });
+                        writeln!(out, "{rec}").unwrap();
+                    }
+                }
+            }
+        }
+    }
+    out.flush().unwrap();
+    let summary = json!({
+        "trees": trees.len(), "words": cases.len(), "unspecified_words": n_un, "outside_cases": n_outside,
+        "sim_cases": n_sim, "real_cases": n_real, "real_trees": real_trees, "noglob_cases": n_noglob,
+        "nontrivial_cases": n_nontrivial, "cases_with_choice": n_choice,
+        "mismatches": n_mismatch, "sim_only_mismatches": n_sim_only, "samples": samples,
+    });
+    println!("{summary}");
+}
+
+// ---------------------------------------------------------------------------
+// random (impl -> spec)
+// ---------------------------------------------------------------------------
+const NAMES: &[&str] = &[
+    "a", "b", "ab", "ba", "abc", ".a", ".b", ".ab", "-", "[", "]", "*", "?", "a]", "[a]", "!", "^", "a-b", "sub", "x.y", "..a", "a.",
+    "b*", "-a",
+];
+
+fn pick<'a, T>(rng: &mut StdRng, xs: &'a [T]) -> &'a T {
+    &xs[rng.gen_range(0..xs.len())]
+}
+
+fn random_tree(rng: &mut StdRng) -> Tree {
+    let mut nodes: Vec<Node> = vec![Node { p: "/w".into(), k: "d".into(), to: "".into() }];
+    let n = rng.gen_range(0..14);
+    for _ in 0..n {
+        // parent: an existing directory of depth <= 3
+        let dirs: Vec<String> = nodes.iter().filter(|x| x.k == "d" && x.p.matches('/').count() <= 3).map(|x| x.p.clone()).collect();
+        let parent = pick(rng, &dirs).clone();
+        let name = *pick(rng, NAMES);
+        let p = format!("{parent}/{name}");
+        if nodes.iter().any(|x| x.p == p) {
+            continue;
+        }
+        let r = rng.gen_range(0..10);
+        let (k, to) = if r < 5 {
+            ("f", String::new())
+        } else if r < 8 {
+            ("d", String::new())
+        } else {
+            let targets = ["..", "../a", "sub", "a", "nope", ".", "../..", "/w", "/w/sub", "b/..", "../sub/a"];
+            let t = if rng.gen_bool(0.5) { pick(rng, &targets).to_string() } else { pick(rng, NAMES).to_string() };
+            ("l", t)
+        };
+        nodes.push(Node { p, k: k.into(), to });
+    }
+    let dirs: Vec<String> = nodes.iter().filter(|x| x.k == "d").map(|x| x.p.clone()).collect();
+    let cwd = if rng.gen_bool(0.7) { "/w".to_string() } else { pick(rng, &dirs).clone() };
+    Tree { cwd, nodes }
+}
+
+fn random_word(rng: &mut StdRng, tree: &Tree) -> Vec<Unit> {
+    const LITS: &[&str] = &[
+        "a", "b", ".", "-", "/", "*", "?", "[", "]", "!", "^", "[ab]", "[!a]", "[^b]", "[a-b]", "[!.]", "[.]", "[]]", "[[]", "[*]", "[]-]",
+        "[!]a]", "[[:alpha:]]", "[![:punct:]]", "sub", "ab", "..", "x.y", "[a", "a]", "**", "?*", "./", "../", "//", "/w/", "..a",
+        "[a-]", "[--a]",
+    ];
+    const QUOTED: &[&str] = &["*", "?", "[", "]", "/", ".", "a", "[a]", "*a", "a*", "..", "-", "!", "\\"];
+    const VALUES: &[&str] = &["*", "?", "[ab]", "a*", "*/", "?/", "\\*", "\\?", "[!a]*", "sub/*", ".*", "\\[a]", "a\\b", "\\.a", "[a\\]b]", "*\\", "a"];
+    let n = rng.gen_range(1..=6);
+    let mut us: Vec<Unit> = vec![];
+    if rng.gen_range(0..12) == 0 {
+        let homes = ["/w", "/w/*", "/w/sub", "/w/[ab]", "/w/?"];
+        us.push(Unit { k: "tilde".into(), s: pick(rng, &homes).to_string() });
+        if rng.gen_bool(0.8) {
+            us.push(Unit { k: "lit".into(), s: "/".into() });
+        } else {
+            return us;
+        }
+    }
+    for _ in 0..n {
+        let r = rng.gen_range(0..20);
+        let u = if r < 11 {
+            Unit { k: "lit".into(), s: pick(rng, LITS).to_string() }
+        } else if r < 13 {
+            // a name of the tree, so that literal components hit
+            let nd = pick(rng, &tree.nodes);
+            let name = nd.p.rsplit('/').next().unwrap().to_string();
+            Unit { k: if rng.gen_bool(0.5) { "sq" } else { "dq" }.into(), s: name }
+        } else if r < 14 {
+            let q: Vec<&&str> = QUOTED.iter().filter(|s| s.chars().count() == 1).collect();
+            Unit { k: "bs".into(), s: pick(rng, &q).to_string() }
+        } else if r < 15 {
+            Unit { k: "sq".into(), s: pick(rng, QUOTED).to_string() }
+        } else if r < 16 {
+            let q: Vec<&&str> = QUOTED.iter().filter(|s| !s.contains('\\')).collect();
+            Unit { k: "dq".into(), s: pick(rng, &q).to_string() }
+        } else if r < 19 {
+            Unit { k: "var".into(), s: pick(rng, VALUES).to_string() }
+        } else {
+            Unit { k: "dqvar".into(), s: pick(rng, VALUES).to_string() }
+        };
+        us.push(u);
+    }
+    us
+}
+
+fn random(args: &[String]) {
+    let runs = opt_usize(args, "--runs", 100);
+    let per = opt_usize(args, "--words", 40);
+    let real_every = opt_usize(args, "--real-every", 4);
+    let seed = yvcommon::util::seed();
+    let mut rng = StdRng::seed_from_u64(seed.wrapping_mul(0x9E37_79B9_7F4A_7C15) ^ 0xC05);
+    let mut out = open_out(args);
+    let mut n = 0usize;
+    for run in 0..runs {
+        let tree = random_tree(&mut rng);
+        let words: Vec<Vec<Unit>> = (0..per).map(|_| random_word(&mut rng, &tree)).collect();
+        let sel: Vec<(usize, &[Unit])> = words.iter().enumerate().map(|(i, w)| (i, w.as_slice())).collect();
+        let noglob = run % 10 == 9;
+        // every batch runs on the simulated and on the real file system; one
+        // record if they deliver the same fields, else one record each
+        let _ = real_every;
+        let rs = run_batch(&tree, &sel, noglob, Mode::Sim);
+        let rr = run_batch(&tree, &sel, noglob, Mode::Real);
+        for (i, w) in &sel {
+            let gs = rs.got.get(i);
+            let gr = rr.got.get(i);
+            let mut emit = |mode: &str, got: Option<&Vec<String>>, outcome: &str| {
+                let (pre, word) = render(w);
+                let text = format!("{pre}probe {word}");
+                let rec = json!({
+                    "mode": mode,
+                    "id": format!("{run}.{i}"),
+                    "links": tree.has_links(),
+                    "cwd": tree.cwd.split('/').filter(|s| !s.is_empty()).collect::<Vec<_>>(),
+                    "nodes": tree.nodes.iter().map(|nd| json!({
+                        "p": nd.p.split('/').filter(|s| !s.is_empty()).collect::<Vec<_>>(),
+                        "k": nd.k,
+                        "to": if nd.to.is_empty() { vec![] } else { nd.to.split('/').collect::<Vec<_>>() },
+                    })).collect::<Vec<_>>(),
+                    "us": units_to_json(w),
+                    "ng": noglob,
+                    "pn": got.is_none(),
+                    "out": got.cloned().unwrap_or_default(),
+                    "outcome": outcome,
+                    "text": text,
+                });
+                writeln!(out, "{rec}").unwrap();
+                n += 1;
+            };
+            if gs == gr {
+                emit("both", gs, &rs.outcome);
+            } else {
+                emit("sim", gs, &rs.outcome);
+                emit("real", gr, &rr.outcome);
+            }
+        }
+    }
+    out.flush().unwrap();
+    println!("{}", json!({"records": n, "runs": runs}));
+}
+
+// ---------------------------------------------------------------------------
+// redo: re-run mismatch records (as written by `replay`) on the current tree
+// ---------------------------------------------------------------------------
+fn redo(args: &[String]) {
+    let mut out = open_out(args);
+    let mut bad = 0;
+    for line in open_in(args).lines() {
+        let line = line.unwrap();
+        if line.trim().is_empty() {
+            continue;
+        }
+        let v: Value = serde_json::from_str(&line).expect("json");
+        let tree = Tree::from_json(&v["tree"]);
+        let us = units_from_json(&v["units"]);
+        let mode = if v["mode"] == "real" { Mode::Real } else { Mode::Sim };
+        let noglob = v["noglob"].as_bool().unwrap_or(false);
+        let r = run_batch(&tree, &[(0, us.as_slice())], noglob, mode);
+        let allowed: Vec<Vec<String>> = v["allowed"]
+            .as_array()
+            .unwrap()
+            .iter()
+            .map(|a| a.as_array().unwrap().iter().map(|s| s.as_str().unwrap().to_string()).collect())
+            .collect();
+        let ok = r.got.get(&0).map(|g| allowed.iter().any(|a| a == g)).unwrap_or(false);
+        if !ok {
+            bad += 1;
+        }
+        writeln!(out, "{}", json!({"ok": ok, "text": v["text"], "allowed": allowed, "observed": r.got.get(&0), "outcome": r.outcome})).unwrap();
+    }
+    out.flush().unwrap();
+    println!("{}", json!({"bad": bad}));
+}
+
 fn main() {
-    eprintln!("yv-c05: not implemented yet");
-    std::process::exit(2);
+    // Child of a real-OS run: confine the shell to the scratch directory so
+    // that "/" is the root of the modelled tree, then start in the tree's cwd.
+    if let Ok(cwd) = std::env::var("YV_C05_CHROOT") {
+        unsafe { std::env::remove_var("YV_C05_CHROOT") };
+        let dot = std::ffi::CString::new(".").unwrap();
+        let c = std::ffi::CString::new(cwd).unwrap();
+        let rc = unsafe { libc::chroot(dot.as_ptr()) };
+        let rc2 = unsafe { libc::chdir(c.as_ptr()) };
+        if rc != 0 || rc2 != 0 {
+            eprintln!("yv-c05: chroot/chdir failed");
+            std::process::exit(97);
+        }
+    }
+    yvcommon::real::maybe_child_main();
+    if std::env::var("YV_LOUD").is_err() {
+        yvcommon::util::quiet_panics();
+    }
+    let args: Vec<String> = std::env::args().skip(1).collect();
+    match args.first().map(|s| s.as_str()) {
+        Some("replay") => replay(&args),
+        Some("random") => random(&args),
+        Some("redo") => redo(&args),
+        _ => {
+            eprintln!("usage: yv-c05 replay|random|redo [--in F] [--out F] ...");
+            std::process::exit(2);
+        }
+    }
+    let _ = opt(&args, "--unused");
 }
